@@ -878,6 +878,9 @@ func processStructProvider(fset *token.FileSet, info *types.Info, call *ast.Call
 				continue
 			}
 			f := st.Field(i)
+			if !f.Exported() && f.Pkg() != nil && f.Pkg() != provider.Pkg {
+				return nil, notePosition(fset.Position(call.Pos()), fmt.Errorf("field %s of %s is unexported in package %s and cannot be set", f.Name(), types.TypeString(structPtr.Elem(), nil), f.Pkg().Path()))
+			}
 			provider.Args = append(provider.Args, ProviderInput{
 				Type:      f.Type(),
 				FieldName: f.Name(),
@@ -889,6 +892,9 @@ func processStructProvider(fset *token.FileSet, info *types.Info, call *ast.Call
 			v, err := checkField(call.Args[i], st)
 			if err != nil {
 				return nil, notePosition(fset.Position(call.Pos()), err)
+			}
+			if !v.Exported() && v.Pkg() != nil && v.Pkg() != provider.Pkg {
+				return nil, notePosition(fset.Position(call.Pos()), fmt.Errorf("field %s of %s is unexported in package %s and cannot be set", v.Name(), types.TypeString(structPtr.Elem(), nil), v.Pkg().Path()))
 			}
 			provider.Args[i-1] = ProviderInput{
 				Type:      v.Type(),
